@@ -106,6 +106,7 @@ type stats struct {
 	ToolErrors   []string        `json:"tool_errors"`
 	Inconclusive int             `json:"inconclusive"`
 	SitesHit     map[string]bool `json:"sites_hit"`
+	NextK        int             `json:"next_k"`
 	Extra        json.RawMessage `json:"extra"`
 }
 
@@ -404,17 +405,48 @@ func cmdRun(args []string) {
 		wg.Add(1)
 		go func(w int) {
 			defer wg.Done()
-			env := map[string]string{"SIM_MODE": "search", "SIM_PROP": *prop, "SIM_TIER": *tier, "SIM_SEED": fmt.Sprint(seed),
-				"SIM_WORKER": fmt.Sprint(w), "SIM_WORKERS": fmt.Sprint(*workers), "SIM_RUNS": fmt.Sprint(runs), "SIM_WALL_S": fmt.Sprint(wall)}
-			r, err := worker(bin, scratch, env, time.Duration(wall+900)*time.Second, fmt.Sprintf("w%d", w))
-			results[w] = wres{r, err}
+			// a worker process that has grown too large (goroutines left blocked at the end of a simulation
+			// are never released) stops and names the run it would have done next; a fresh process continues
+			t0 := time.Now()
+			from := 0
+			var all []map[string]json.RawMessage
+			for chunk := 0; ; chunk++ {
+				left := wall - int(time.Since(t0).Seconds())
+				if left < 1 {
+					left = 1
+				}
+				env := map[string]string{"SIM_MODE": "search", "SIM_PROP": *prop, "SIM_TIER": *tier, "SIM_SEED": fmt.Sprint(seed),
+					"SIM_WORKER": fmt.Sprint(w), "SIM_WORKERS": fmt.Sprint(*workers), "SIM_RUNS": fmt.Sprint(runs), "SIM_WALL_S": fmt.Sprint(left),
+					"SIM_FROM": fmt.Sprint(from)}
+				r, err := worker(bin, scratch, env, time.Duration(left+900)*time.Second, fmt.Sprintf("w%d_%d", w, chunk))
+				if err != nil {
+					results[w] = wres{nil, err}
+					return
+				}
+				all = append(all, r...)
+				next := 0
+				for _, m := range r {
+					if typeOf(m) == "stats" {
+						var st stats
+						if json.Unmarshal(m["stats"], &st) == nil {
+							next = st.NextK
+						}
+					}
+				}
+				if next <= from || int(time.Since(t0).Seconds()) >= wall {
+					break
+				}
+				from = next
+			}
+			results[w] = wres{all, nil}
 		}(w)
 	}
 	wg.Wait()
 	tot := stats{Faults: map[string]int{}, Probes: map[string]int{}, Strategies: map[string]int{}, Reasons: map[string]int{}}
 	var allSigs []uint64
-	for w := 0; w < *workers; w++ {
-		b, err := os.ReadFile(filepath.Join(scratch, fmt.Sprintf("out-w%d.jsonl.sigs", w)))
+	sigFiles, _ := filepath.Glob(filepath.Join(scratch, "out-w*.jsonl.sigs"))
+	for _, sf := range sigFiles {
+		b, err := os.ReadFile(sf)
 		if err != nil {
 			continue
 		}
@@ -685,7 +717,7 @@ func cmdRun(args []string) {
 			"determinism_selftest_seeds_x_processes": fmt.Sprintf("%d x 3 (GOMAXPROCS 1/4/16), identical event-log hashes", detSeeds),
 			"code_reach": map[string]interface{}{"instrumented_statements_in_scope": sitesTotal, "statements_executed_by_simulated_threads": sitesHit,
 				"functions_in_scope": len(fnHit), "functions_never_reached": neverReached},
-			"worker_processes": *workers, "build_s": buildS, "search_s": searchS, "tree": treeID(),
+			"worker_processes": *workers, "worker_process_restarts_for_memory": len(sigFiles) - *workers, "build_s": buildS, "search_s": searchS, "tree": treeID(),
 		},
 	}
 	writeJSON(filepath.Join(outDir(), "evidence", *prop+".json"), ev)
